@@ -91,6 +91,9 @@ def FloatIO : FloatOps Float where
   neg x := -x
   pow10 e := Float.pow 10.0 (Float.ofInt e)
   eq a b := a == b
+  isNan x := x.isNaN
+  isInf x := x.isInf
+  ltZero x := x < 0
 
 def isFinite (x : Float) : Bool := (x.toBits.toNat / 2 ^ 52) % 2048 != 2047
 
@@ -226,7 +229,7 @@ def sortBy {β} (key : β → List Byte) (l : List β) : List β :=
     `approx`: floats by their "%g" text instead of their bits. -/
 partial def pv (approx : Bool) : V → String
   | .int n => s!"i{n}"
-  | .real x => if approx then "g" ++ fmtG x else "f" ++ natDigitsHex x.toBits.toNat
+  | .real x => if approx then "g" ++ String.ofList ((saveReal FloatIO x).map Char.ofNat) else "f" ++ natDigitsHex (if x.isNaN then 0x7ff8000000000000 else x.toBits.toNat)
   | .str s => "s" ++ hexOf s
   | .obj => "o"
   | .arr xs => "a[" ++ ",".intercalate (xs.toList.map (pv approx)) ++ "]"
@@ -368,11 +371,11 @@ def judgeRestored (s : JState) (what : String) (orig : V) (impl : List String) :
     | _ => (s.flag [s!"trace unexpected {l}"], r)
   | none => (s.flag [s!"trace missing-rest {what}"], [])
 
-def fileChecks (hex : String) : List String :=
+def fileChecks (statics : List String) (hex : String) : List String :=
   let bytes := hexBytes hex.toList
   let lines := (splitLines bytes).map (fun l => String.ofList (l.map Char.ofNat))
   lines.foldl (fun acc l =>
-    if l.startsWith "vs " ∨ l.startsWith "vis " then acc ++ [s!"persisted-static-variable {l}"]
+    if statics.any (fun n => l.startsWith (n ++ " ")) then acc ++ [s!"persisted-static-variable {l}"]
     else if l.startsWith "vo " ∧ l != "vo " then acc ++ [s!"persisted-object-reference {l}"]
     else acc) []
 
@@ -427,20 +430,59 @@ def judgeCmd (s : JState) (cmd : String) (impl : List String) : JState × List S
       ({ s with live := [⟨"vi", false, i⟩, ⟨"vis", true, st⟩, ⟨"va", false, a⟩, ⟨"vb", false, b⟩,
                           ⟨"vs", true, st⟩, ⟨"vo", false, .obj⟩, ⟨"vc", false, c⟩] }, impl)
     | _, _, _, _, _ => (s, impl)
+  | ["use", o] =>
+    let lay := if o == "many" then (List.range 24).map (fun i => (⟨s!"w{i}", i % 4 == 3, .int 0⟩ : JVar)) else layout0
+    ({ s with live := lay, snap := none }, impl)
+  | ["setm", vt] =>
+    match parseValue vt with
+    | some (.arr xs) =>
+      if xs.length == s.live.length then
+        ({ s with live := (s.live.zip xs.toList).map (fun (p : JVar × V) => { p.1 with val := p.2 }) }, impl)
+      else (s, impl)
+    | _ => (s, impl)
+  | "son" :: _ =>
+    -- save_object under another name: the file the naming rule promises must have been made
+    match nextLine impl with
+    | some (l, r) => (if l == "so 1 made=1" then s else s.flag [s!"save-object-name {cmd} : {l}"], r)
+    | none => (s.flag ["trace missing-so"], [])
   | ["so", z] =>
     match nextLine impl with
     | some (l, r) =>
       let s1 := if l == "so 1" then { s with snap := some (s.live, z != "0"), hasFile := true }
+                else if s.live.any (fun v => !v.isStatic && depthOf v.val > maxDepth) then s   -- refused: too deep
                 else s.flag [s!"save-object-failed {l}"]
       match nextLine r with
       | some (fl, r2) =>
         match toks fl with
-        | ["file", hex] => (s1.flag (fileChecks hex), r2)
+        | ["file", hex] => (s1.flag (fileChecks ((s.live.filter (·.isStatic)).map (·.name)) hex), r2)
         | _ => (s1, r2)
       | none => (s1, [])
     | none => (s.flag ["trace missing-so"], [])
   | "wf" :: _ => ({ s with snap := none, hasFile := true }, impl)
   | ["rm"] => ({ s with snap := none, hasFile := false }, impl)
+  | ["rox", _, ext] =>
+    -- restore of a file the generator made from known values: `ext` = the variables afterwards
+    match nextLine impl with
+    | some (l, r) =>
+      match nextLine r with
+      | some (vl, r2) =>
+        match toks vl, parseValue ext with
+        | ["vars", vt], some (.arr ex) =>
+          match parseValue vt with
+          | some (.arr got) =>
+            let s' := { s with live := (s.live.zip got.toList).map (fun (p : JVar × V) => { p.1 with val := p.2 }) }
+            if l != "ro 1" then (s'.flag [s!"roundtrip-restore-object-failed {l}"], r2)
+            else if ex.length != got.length then (s'.flag [s!"trace vars-shape {vl}"], r2)
+            else
+              let names := s.live.map (·.name)
+              (s'.flag ((names.zip (ex.toList.zip got.toList)).foldl
+                (fun (acc : List String) (p : String × V × V) =>
+                  -- a variable the file does not mention keeps its live value (an object reference stays one)
+                  if pv true p.2.1 == pv true p.2.2 then acc else acc ++ cmpRestored p.1 p.2.1 p.2.2) []), r2)
+          | _ => (s.flag [s!"trace vars-unparsable {vl}"], r2)
+        | _, _ => (s.flag [s!"trace unexpected {vl}"], r2)
+      | none => (s.flag ["trace missing-vars"], [])
+    | none => (s.flag ["trace missing-ro"], [])
   | ["ro", nc] =>
     match nextLine impl with
     | some (l, r) =>
